@@ -300,7 +300,18 @@ fn process_deposits_for_single_pool<C: ContentAddrStore>(
     if total_lefts == 0 || total_rights == 0 {
         return;
     }
-    let total_mtsqrt = total_lefts.sqrt().saturating_mul(total_rights.sqrt());
+    // every deposit is weighed by the geometric mean of what it brings in; the weights must add up to the
+    // denominator, otherwise the shares handed out can exceed the liquidity the pool records
+    let total_mtsqrt: u128 = deposits
+        .iter()
+        .map(|tx| {
+            tx.outputs[0]
+                .value
+                .0
+                .sqrt()
+                .saturating_mul(tx.outputs[1].value.0.sqrt())
+        })
+        .fold(0u128, |a, b| a.saturating_add(b));
     // main logic here
     let total_liqs = if let Some(mut pool_state) = state.pools.get(pool) {
         let liq = pool_state.deposit(total_lefts, total_rights);
